@@ -492,25 +492,30 @@ fn contract_eq_fields(
     //
     // Otherwise, comparing the rest of the labels seem rather clumsy (as labels store a wide
     // variety of static and runtime data) and not very meaningful.
-    let pending_contracts_eq = field1
-        .pending_contracts
-        .iter()
-        .zip(field2.pending_contracts.iter())
-        .all(|(c1, c2)| {
-            c1.label.type_environment == c2.label.type_environment
-                && contract_eq_bounded(state, &c1.contract, env1, &c2.contract, env2)
-        });
+    // `zip` stops at the shorter list, so lengths must be compared first: a list of contracts isn't
+    // equal to one of its strict prefixes.
+    let pending_contracts_eq = field1.pending_contracts.len() == field2.pending_contracts.len()
+        && field1
+            .pending_contracts
+            .iter()
+            .zip(field2.pending_contracts.iter())
+            .all(|(c1, c2)| {
+                c1.label.type_environment == c2.label.type_environment
+                    && contract_eq_bounded(state, &c1.contract, env1, &c2.contract, env2)
+            });
 
     // Check that the type and contract annotations are equal. [^contract-eq-ignore-label] applies
     // here as well.
-    let annotations_eq = field1
-        .metadata
-        .iter_annots()
-        .zip(field2.metadata.iter_annots())
-        .all(|(t1, t2)| {
-            t1.label.type_environment == t2.label.type_environment
-                && type_eq_bounded(state, &t1.typ, env1, &t2.typ.clone(), env2)
-        });
+    let annotations_eq = field1.metadata.iter_annots().count()
+        == field2.metadata.iter_annots().count()
+        && field1
+            .metadata
+            .iter_annots()
+            .zip(field2.metadata.iter_annots())
+            .all(|(t1, t2)| {
+                t1.label.type_environment == t2.label.type_environment
+                    && type_eq_bounded(state, &t1.typ, env1, &t2.typ.clone(), env2)
+            });
 
     // Check that "scalar" metadata (simple values) are equals
     let scalar_metadata_eq = field1.metadata.opt() == field2.metadata.opt()
